@@ -127,7 +127,8 @@ Theorem C17_inputs_share_settings : forall resub pathspec_match world_of env tok
   py_run (main env (source_document resub pathspec_match world_of) toks)
   = finish (run_inputs (map (fun input =>
       Walk.document W H D
-        (excl_with_output (pathspec_match PATS input) (pw_out_in_input (world_of input)))
+        (excl_with_output_links (pathspec_match PATS input) (pw_out_in_input (world_of input))
+                                (follow_of obj) (pw_links (world_of input)))
         (pw_base (world_of input)) (pw_kind (world_of input))) (inputs_of toks))).
 Proof. exact WholeProgram.inputs_share_settings. Qed.
 
@@ -149,7 +150,8 @@ Theorem C17_prefix_default_does_not_leak : forall resub pathspec_match world_of 
   = finish (run_inputs (map (fun input =>
       Walk.document (with_prefix (wsettings_of obj) (Some (pw_base (world_of input))))
         (headers_of obj) (docfn_of resub obj)
-        (excl_with_output (excl_of pathspec_match obj input) (pw_out_in_input (world_of input)))
+        (excl_with_output_links (excl_of pathspec_match obj input) (pw_out_in_input (world_of input))
+                                (follow_of obj) (pw_links (world_of input)))
         (pw_base (world_of input)) (pw_kind (world_of input))) (inputs_of toks))).
 Proof. exact WholeProgram.prefix_default_does_not_leak. Qed.
 
